@@ -71,6 +71,7 @@ type Engine struct {
 
 	// per-path state
 	pc        []*Term
+	pcSet     map[*Term]bool
 	curModel  Model
 	evalCache map[*Term]uint64
 	nondetCnt map[string]int
@@ -133,10 +134,12 @@ type Engine struct {
 }
 
 var E *Engine
+var DecisionSites = map[string]int{}
 
 func (e *Engine) resetPath() {
 	e.depth = 0
 	e.pc = e.pc[:0]
+	e.pcSet = map[*Term]bool{}
 	e.curModel = nil
 	e.evalCache = nil
 	e.nondetCnt = map[string]int{}
@@ -212,6 +215,7 @@ func (e *Engine) addPC(c *Term) {
 		return
 	}
 	e.pc = append(e.pc, c)
+	e.pcSet[c] = true
 	if e.curModel != nil {
 		if v, ok := e.curModel.Eval(c, e.evalCache); !ok || v != 1 {
 			e.curModel = nil
@@ -265,6 +269,9 @@ func (e *Engine) chooseCond(conds []*Term) int {
 	if len(e.tree) >= e.maxDepth {
 		e.endPath("inconclusive", fmt.Sprintf("decision depth bound %d reached (unwinding assertion)", e.maxDepth))
 	}
+	if e.verbose && e.curG != nil {
+		DecisionSites[e.where(e.curG)]++
+	}
 	n := &node{}
 	for i, c := range conds {
 		if c.IsFalse() {
@@ -308,6 +315,13 @@ func (e *Engine) chooseCond(conds []*Term) int {
 func (e *Engine) branch(c *Term) bool {
 	if c.IsConst() {
 		return c.C == 1
+	}
+	// a condition already on the path (e.g. the same code run again on the same data) is decided
+	if e.pcSet[c] {
+		return true
+	}
+	if e.pcSet[Not(c)] {
+		return false
 	}
 	return e.chooseCond([]*Term{c, Not(c)}) == 0
 }
